@@ -36,3 +36,11 @@ def implies(a, b):
 
 def iff(a, b):
     return bool(a) == bool(b)
+
+
+def close(a, b):
+    """numbers equal (natively: up to float rounding; symbolically: exactly)"""
+    try:
+        return abs(a - b) <= 1e-9 * max(1.0, abs(a), abs(b))
+    except TypeError:
+        return a == b
